@@ -272,9 +272,11 @@ class RoleCheck(Check):
     def __call__(self, target, creds, enforcer, current_rule=None):
         try:
             match = self.match % target
-        except KeyError:
+        except (KeyError, ValueError):
             # While doing RoleCheck if key not
-            # present in Target return false
+            # present in Target return false; the same goes for a
+            # value that cannot be written out (str() refuses integers
+            # beyond sys.get_int_max_str_digits() with ValueError)
             return False
         if 'roles' in creds:
             return match.lower() in [x.lower() for x in creds['roles']]
@@ -310,7 +312,11 @@ class GenericCheck(Check):
         '''
 
         if len(path_segments) == 0:
-            return match == str(test_value)
+            try:
+                return match == str(test_value)
+            except ValueError:
+                # an integer with more digits than str() will write
+                return False
         key, path_segments = path_segments[0], path_segments[1:]
         try:
             test_value = test_value[key]
@@ -330,9 +336,11 @@ class GenericCheck(Check):
 
         try:
             match = self.match % target
-        except KeyError:
+        except (KeyError, ValueError):
             # While doing GenericCheck if key not
-            # present in Target return false
+            # present in Target return false; the same goes for a
+            # value that cannot be written out (str() refuses integers
+            # beyond sys.get_int_max_str_digits() with ValueError)
             return False
         try:
             # Try to interpret self.kind as a literal
